@@ -475,7 +475,7 @@ def finish(ctx, mod):
         v = ctx.violations[0]
         h = hashlib.sha1(json.dumps(v, sort_keys=True, default=str).encode()).hexdigest()[:10]
         path = os.path.join(VERIF, "replays", "%s-%s.json" % (pid, h))
-        json.dump(dict(property=pid, kind="failing-input", first=v, all=ctx.violations,
+        json.dump(dict(property=pid, kind="failing-input", tier=ctx.tier, seed=ctx.seed, first=v, all=ctx.violations,
                        broken_obligations=ctx.breaks), open(path, "w"), indent=1, default=str)
         lines.append("VIOLATION property=%s replay=%s" % (pid, path))
         rc = 1
@@ -483,7 +483,8 @@ def finish(ctx, mod):
         b = ctx.breaks[0]
         h = hashlib.sha1(json.dumps(b, sort_keys=True, default=str).encode()).hexdigest()[:10]
         path = os.path.join(VERIF, "replays", "%s-%s.json" % (pid, h))
-        json.dump(dict(property=pid, kind="broken-obligation", no_longer_checks=[x["what"] for x in ctx.breaks],
+        json.dump(dict(property=pid, kind="broken-obligation", tier=ctx.tier, seed=ctx.seed,
+                       no_longer_checks=[x["what"] for x in ctx.breaks],
                        detail=ctx.breaks), open(path, "w"), indent=1, default=str)
         lines.append("VIOLATION property=%s replay=%s no-failing-input-found" % (pid, path))
         rc = 1
@@ -527,10 +528,15 @@ def main(argv):
     except ModuleNotFoundError:
         print("no such check: " + a.pid)
         return 2
+    rep = None
+    if a.replay:
+        rep = json.load(open(a.replay))
+        if hasattr(mod, "replay"):
+            return mod.replay(Ctx(a.pid, rep.get("tier", a.tier), int(rep.get("seed", seed))), rep)
+        # generic replay: the same seeded run that produced the replay, then look for the same failing input / obligation
+        a.tier, seed = rep.get("tier", a.tier), int(rep.get("seed", seed))
     ctx = Ctx(a.pid, a.tier, seed)
     try:
-        if a.replay:
-            return mod.replay(ctx, json.load(open(a.replay)))
         proof_ok = proof_phase(ctx, mod)
         ctx.proof_ok = proof_ok
         try:
@@ -539,7 +545,19 @@ def main(argv):
             raise
         except Timeout:
             raise Infra("watchdog fired outside a guarded call")
-        return finish(ctx, mod)
+        rc = finish(ctx, mod)
+        if rep is not None:
+            if rep.get("kind") == "failing-input":
+                key = (rep.get("first") or {}).get("key")
+                hit = [v for v in ctx.violations if v["key"] == key]
+                print("REPLAY %s: %s" % (a.pid, ("reproduced: %s -> %s (expected %s)" % (key, hit[0]["actual"], hit[0]["expected"])) if hit
+                                          else "NOT reproduced: %s no longer fails on this tree" % key))
+                return 1 if hit else 0
+            whats = set(rep.get("no_longer_checks", []))
+            hit = [b for b in ctx.breaks if b["what"] in whats]
+            print("REPLAY %s: %s" % (a.pid, "reproduced: " + hit[0]["what"] if hit else "NOT reproduced: those obligations check again"))
+            return 1 if hit else 0
+        return rc
     except Infra as e:
         print("INFRA-FAILURE %s: %s" % (a.pid, e))
         return 2
